@@ -93,6 +93,9 @@ type sessIn struct {
 	// the receiver holds back its answer to the init PUT of this representation; DELETE is sent
 	// meanwhile, then the receiver answers
 	HoldInit string `json:"delete_during_init_of,omitempty"`
+	// sessions of one group run in the same process and PUT to the same receiver host (one server,
+	// told apart by their destination name)
+	Group string `json:"group,omitempty"`
 	// stop playing step events after this many steps were not taken (0: play all)
 	StopAfterRefused int `json:"stop_after_refused,omitempty"`
 	// real-time sessions: create at a wall-clock instant this many ms after a multiple of AlignMS
@@ -296,6 +299,29 @@ func (r *receiver) quiesce(from, want int, quiet, max time.Duration) int {
 	}
 }
 
+// sharedRecv is one receiving server for all sessions of a group: requests go to the receiver
+// registered for the first path element (the destination name).
+type sharedRecv struct {
+	mu     sync.Mutex
+	byDest map[string]*receiver
+	srv    *httptest.Server
+}
+
+func (sh *sharedRecv) ServeHTTP(w http.ResponseWriter, req *http.Request) {
+	parts := strings.SplitN(strings.TrimPrefix(req.URL.Path, "/"), "/", 2)
+	sh.mu.Lock()
+	rc := sh.byDest[parts[0]]
+	sh.mu.Unlock()
+	if rc == nil {
+		w.WriteHeader(404)
+		return
+	}
+	rc.ServeHTTP(w, req)
+}
+
+var sharedMu sync.Mutex
+var sharedRecvs = map[string]*sharedRecv{}
+
 // ---------------------------------------------------------------- child process
 
 var outMu sync.Mutex
@@ -357,9 +383,27 @@ func createSession(ls *lib.Livesim, in *sessIn) *sessRun {
 	if in.HoldInit != "" {
 		rc.held, rc.release = make(chan struct{}), make(chan struct{})
 	}
-	srv := httptest.NewServer(rc)
+	var srv *httptest.Server
+	destRoot := ""
+	if in.Group != "" {
+		sharedMu.Lock()
+		sh := sharedRecvs[in.Group]
+		if sh == nil {
+			sh = &sharedRecv{byDest: map[string]*receiver{}}
+			sh.srv = httptest.NewServer(sh)
+			sharedRecvs[in.Group] = sh
+		}
+		sharedMu.Unlock()
+		sh.mu.Lock()
+		sh.byDest[in.DestName] = rc
+		sh.mu.Unlock()
+		destRoot = sh.srv.URL
+	} else {
+		srv = httptest.NewServer(rc)
+		destRoot = srv.URL
+	}
 	sr := &sessRun{in: in, out: &sessOut{ID: in.ID}, rc: rc, srv: srv}
-	setup := map[string]any{"destRoot": srv.URL, "destName": in.DestName, "livesimURL": in.livesimURL(), "streamsURLs": in.Streams}
+	setup := map[string]any{"destRoot": destRoot, "destName": in.DestName, "livesimURL": in.livesimURL(), "streamsURLs": in.Streams}
 	if in.User != "" {
 		setup["user"] = in.User
 	}
@@ -532,7 +576,9 @@ func (sr *sessRun) play(ls *lib.Livesim) {
 // finish stops the session if it still runs, analyses the received bodies and compares each with
 // a GET of the same segment from the same livesim2 instance.
 func (sr *sessRun) finish(ls *lib.Livesim) {
-	defer sr.srv.Close()
+	if sr.srv != nil {
+		defer sr.srv.Close()
+	}
 	if sr.out.CreateStatus != 201 || sr.out.Err != "" {
 		return
 	}
